@@ -263,6 +263,8 @@ def run_solve_t(Model, case):
         if 0 <= src < n:
             m.A[src] = case['offset_source'].get('A', 0.0)
             m.B[src] = case['offset_source'].get('B', 0.0)
+    if case.get('x_at_source') in ('nan', 'inf') and case.get('offset') and 0 <= tn + case['offset'] < n:
+        m.X[tn + case['offset']] = math.nan if case['x_at_source'] == 'nan' else math.inf
     hist = case.get('history')
     if hist:
         # the model reaches the call through a copy, a reindex onto its own span, or a round trip through pickle
